@@ -24,13 +24,17 @@ from engine import common, tlc, replay, runpy
 from bind import _pycalls as pc
 
 PROP = "C04"
-INL_INVARIANTS = ["SitesIndependent", "OnlyTargets", "DefinitionRemovedIffAsked", "NoDanglingCall", "HostLocalsKept"]
+INL_INVARIANTS = ["SitesIndependent", "OnlyTargets", "DefinitionRemovedIffAsked", "NoDanglingCall", "HostLocalsKept",
+                  "ImportsWhereNeeded"]
 VAR_INVARIANTS = ["ObsPreserved", "NoDanglingRead"]
-CTXS = ("stmt", "rhs", "nested", "suffix")
+CTXS = ("stmt", "rhs", "nested", "suffix", "cont")
 
 
-def inline_constants(max_params, max_sites, plain=False, scopes=False):
-    return {"MaxRecv": 1, "MaxPreviews": 0, "PreviewKinds": tlc.Sub("NoPreview"),
+def inline_constants(max_params, max_sites, plain=False, scopes=False, modules=False):
+    return {"Mods": tlc.Sub("ThreeMods" if modules else "TwoMods"),
+            "Imps": {True, False} if modules else tlc.Sub("NoImp"),
+            "Ctxs": tlc.Sub("AllCtxs"), "Furniture": tlc.Sub("AllFurniture"),
+            "MaxRecv": 1, "MaxPreviews": 0, "PreviewKinds": tlc.Sub("NoPreview"),
             "Hosts": {True, False} if scopes else tlc.Sub("NoHost"),
             "Dups": {True, False} if scopes else tlc.Sub("NoDup"),"MaxParams": max_params, "MaxArgs": 3, "Kinds": tlc.Sub("InlineKinds"), "Stars": False, "KoSet": tlc.Sub("NoKo"),
             "MaxChangers": 0, "Task": "inline", "MaxSites": max_sites,
@@ -64,17 +68,17 @@ def run_inline(item):
         for p, s in files.items():
             with open(os.path.join(root, p), "w") as f:
                 f.write(s)
-        out0, exc0 = pc.run_entry(root, "n.py")
+        out0, exc0 = pc.run_entry(root, pc.INLINE_ENTRY)
         want0 = pc.inline_expected(kind, sig, beh["b0"], dims, sites)
         if exc0 or pc.parse_print_lines(out0) != want0:
             return {"machinery": "rendered program does not print the spec's bindings: exc=%s\n%s\nwant %s\n%s" % (
-                exc0, out0[:500], want0, files["m.py"] + "----\n" + files["n.py"]), "item": [sig, calls, kind]}
+                exc0, out0[:500], want0, "\n----\n".join("%s\n%s" % kv for kv in sorted(files.items()))), "item": [sig, calls, kind]}
         project = project_mod.Project(root, ropefolder=None)
         try:
             if at == "def":
                 path, offset = "m.py", files["m.py"].index("def f(") + 4
             else:
-                path = "m.py" if sites[at]["m"] == 1 else "n.py"
+                path = pc.MODFILE[sites[at]["m"]]
                 offset = site_offset(files[path], at)
             exc = None
             try:
@@ -120,7 +124,7 @@ def judge_inline(res, beh, kind, dims, after, root):
     # behaviour: every inlined site shows the binding of its own call; the others still call
     pairs = [beh["shown"][k] if k in targets else beh["b0"][k] for k in range(len(sites))]
     want = pc.inline_expected(kind, sig, pairs, dims, sites)
-    out1, exc1 = pc.run_entry(root, "n.py")
+    out1, exc1 = pc.run_entry(root, pc.INLINE_ENTRY)
     got = pc.parse_print_lines(out1)
     if exc1 or got != want:
         detail["exc_after"] = exc1
@@ -139,7 +143,8 @@ def judge_inline(res, beh, kind, dims, after, root):
         fails.append("HostLocalsKept" if only_hv else "SitesIndependent")
     # structure: which sites are still calls, whether the definition is still there
     segs = {}
-    for p in ("m.py", "n.py"):
+    srcmods = [p for p in after if p in pc.MODFILE.values()]
+    for p in srcmods:
         segs.update(pc.site_segments(after[p]))
     still = []
     for k in range(len(sites)):
@@ -155,7 +160,7 @@ def judge_inline(res, beh, kind, dims, after, root):
     if has_def == bool(opt["remove"]):
         fails.append("DefinitionRemovedIffAsked")
     if opt["remove"]:
-        refs = sum(sum(pc.calls_to(after[p], kind)) for p in ("m.py", "n.py"))
+        refs = sum(sum(pc.calls_to(after[p], kind)) for p in srcmods)
         if refs:
             fails.append("NoDanglingCall")
 
@@ -205,6 +210,7 @@ def inline_key(r):
         "argvar": r["dims"].get("argvar"), "tmp": r["dims"].get("tmp"), "scopes": r["dims"].get("scopes", False),
         "identical_call_texts": bool(beh.get("twins")),
         "ctx": sorted(set(r["dims"]["ctx"])), "modules": sorted(set(s["m"] for s in beh["sites"])),
+        "needs_import_in": sorted(beh.get("imported") or []) if r["dims"].get("imp") else [],
         "at": "def" if r["at"] == "def" else "site",
         "exc": (r.get("exc") or "").split(":")[0] or None,
         "exc_after": d.get("exc_after"),
@@ -214,12 +220,15 @@ def inline_key(r):
 
 def inline_dims(beh, rnd):
     n = len(beh["sites"])
-    d = {"ctx": [rnd.choice(CTXS) for _ in range(n)], "variant": [rnd.randrange(2) for _ in range(n)],
+    ctxs = sorted(beh.get("ctxs") or CTXS)
+    d = {"ctx": [rnd.choice(ctxs) for _ in range(n)], "variant": [rnd.randrange(2) for _ in range(n)],
             "ret": rnd.random() < 0.5, "imp": rnd.random() < 0.3,
             "use": beh["opt"]["use"], "cx": beh["opt"]["cx"],
             # names: sites inside a host function, a host variable around every site (its own `t`, or the
             # first argument passed through a variable named like the body's temporary / like a parameter)
             "host": rnd.random() < 0.4, "hostvar": False, "argvar": None, "tmp": rnd.random() < 0.4}
+    if beh.get("modules"):
+        d["imp"] = beh["opt"]["imp"]       # the spec decides whether the body needs an import
     if "hostval" in beh and any("h" in s for s in beh["sites"]) and beh.get("scoped"):
         # scopes come from the spec: one scope per site, host local where the spec says so; textually
         # identical sites (spec's Twins) are rendered with the same call variant and context
@@ -349,7 +358,8 @@ def stratified(behs, n, rnd):
     for b in behs:
         o = b["opt"]
         g = (o["remove"], o["only"], tuple(s["m"] for s in b["sites"]), o["use"], o["cx"],
-             tuple((s.get("h", False), s.get("dup", False)) for s in b["sites"]) if b.get("scoped") else ())
+             tuple((s.get("h", False), s.get("dup", False)) for s in b["sites"]) if b.get("scoped") else (),
+             o.get("imp", False) if b.get("modules") else None)
         groups.setdefault(g, []).append(b)
     for g in groups.values():
         rnd.shuffle(g)
@@ -460,9 +470,9 @@ def run_item(item):
             "sequence": run_seq}[item[0]](item)
 
 
-def tlc_inline(verdict, max_params, max_sites, coverage=False, extra_inv=(), plain=False, scopes=False):
-    cfg = os.path.join(common.SCRATCH_BASE, "c04_%d_%s.cfg" % (os.getpid(), common.digest([max_params, max_sites, extra_inv, plain, scopes])))
-    tlc.write_cfg(cfg, constants=inline_constants(max_params, max_sites, plain, scopes),
+def tlc_inline(verdict, max_params, max_sites, coverage=False, extra_inv=(), plain=False, scopes=False, modules=False):
+    cfg = os.path.join(common.SCRATCH_BASE, "pcinl_%d_%s.cfg" % (os.getpid(), common.digest([max_params, max_sites, extra_inv, plain, scopes, modules])))
+    tlc.write_cfg(cfg, constants=inline_constants(max_params, max_sites, plain, scopes, modules),
                   invariants=INL_INVARIANTS + list(extra_inv) + ([] if extra_inv else ["ExportInline"]))
     behs = []
     res = tlc.run("MC_PyCalls", cfg, on_tagged=lambda t, v: behs.append(v), collect_tags=False,
@@ -470,7 +480,7 @@ def tlc_inline(verdict, max_params, max_sites, coverage=False, extra_inv=(), pla
     os.unlink(cfg)
     if not extra_inv:
         print("TLC PyCalls[inline params<=%d sites<=%d%s%s]:" % (max_params, max_sites, " plain" if plain else "",
-                                                                  " scopes" if scopes else ""), res.summary(),
+                                                                  (" scopes" if scopes else "") + (" modules" if modules else "")), res.summary(),
               "behaviours", len(behs))
         if not res.ok:
             verdict.machinery_failure("TLC: %s %s\n%s" % (res.violated, res.error, (res.trace or res.tail)[-1200:]))
@@ -510,6 +520,8 @@ def main(tier):
     # scopes and names: every site in its own scope, with / without a clashing live local, repeats of
     # site 1's call text
     jobs.append(lambda: tlc_inline(verdict, 2 if quick else 3, 2, plain=True, scopes=True))
+    # more than one importing module, bodies that need an import of the defining module
+    jobs.append(lambda: tlc_inline(verdict, 1, 2 if quick else 3, plain=True, modules=True))
     # histories of several performed inline requests
     jobs.append(lambda: tlc_seq(verdict, 3, 2) if quick else tlc_seq(verdict, 4, 3))
     if not quick:
@@ -517,8 +529,12 @@ def main(tier):
         jobs.append(lambda: tlc_inline(verdict, 3, 2, plain=True))
         jobs.append(lambda: tlc_inline(verdict, 2, 3, plain=True))
     got = c06.parallel(jobs)
-    (r1, fbehs), (rv, vbehs), (rp, pbehs), (rs, sbehs), (rq, qbehs) = got[:5]
-    runs += [r1, rv, rp, rs, rq]
+    (r1, fbehs), (rv, vbehs), (rp, pbehs), (rs, sbehs), (rm_, mbehs), (rq, qbehs) = got[:6]
+    runs += [r1, rv, rp, rs, rm_, rq]
+    for b in mbehs:
+        b["modules"] = True
+    if not any(len(b["imported"]) >= 2 for b in mbehs):
+        verdict.machinery_failure("no behaviour in which two importing modules need the body's imports")
     if not any(len(b["hist"]) >= 2 and b["clashes"] for b in qbehs):
         verdict.machinery_failure("no history of two performed inline requests with clashing locals")
     for b in sbehs:
@@ -526,7 +542,7 @@ def main(tier):
     if not any(b["twins"] and any(s["h"] for s in b["sites"]) for b in sbehs):
         verdict.machinery_failure("no behaviour with textually identical sites in scopes with different locals")
     if not quick:
-        (r2, behs2), (r3, behs3) = got[5], got[6]
+        (r2, behs2), (r3, behs3) = got[6], got[7]
         runs += [r2, r3]
         fbehs += [b for b in behs2 if len(b["sig"]["ps"]) == 3]
         fbehs += [b for b in behs3 if len(b["sites"]) == 3]
@@ -546,6 +562,11 @@ def main(tier):
         if s0.violated != "HostLocalsKeptC":
             verdict.machinery_failure("model insensitive: cached bodies satisfy HostLocalsKept (%s %s)" % (
                 s0.violated, s0.error))
+        sm, _ = tlc_inline(verdict, 1, 2, plain=True, modules=True, extra_inv=["ImportsWhereNeededD"])
+        sens["needed-imports-readable-once"] = sm.violated
+        if sm.violated != "ImportsWhereNeededD":
+            verdict.machinery_failure("model insensitive: one-shot imports satisfy ImportsWhereNeeded (%s %s)" % (
+                sm.violated, sm.error))
         sq, _ = tlc_seq(verdict, 3, 2, defect=True)
         sens["prefix-counter-restarts-per-request"] = sq.violated
         if sq.violated != "NoCapture":
@@ -567,9 +588,11 @@ def main(tier):
         behs.sort(key=lambda b: json.dumps(b, sort_keys=True))
         rnd.shuffle(behs)
         return behs[:n]
-    totals = {"function": len(fbehs), "function_scopes": len(sbehs), "variable": len(vbehs),
+    totals = {"function": len(fbehs), "function_scopes": len(sbehs), "function_modules": len(mbehs),
+              "variable": len(vbehs),
               "parameter": len(pbehs), "sequence": len(qbehs)}
-    fbehs = stratified(fbehs, 600 if quick else 30000, rnd) + stratified(sbehs, 400 if quick else 12000, rnd)
+    fbehs = (stratified(fbehs, 600 if quick else 30000, rnd) + stratified(sbehs, 400 if quick else 12000, rnd) +
+             stratified(mbehs, 250 if quick else 4000, rnd))
     vbehs = pick(vbehs, 1000 if quick else 40000)
     pbehs = pick(pbehs, 60 if quick else 10000)
     items = []
@@ -619,7 +642,7 @@ def main(tier):
             if part == "function":
                 samples.append({"part": part, "kind": r["kind"], "signature": pc.sig_text(beh["sig"], r["kind"]),
                                 "sites": beh["sites"], "options": beh["opt"], "dims": r["dims"],
-                                "after_n": r["after"]["n.py"]})
+                                "after_n": r["after"].get("n.py")})
             elif part == "variable":
                 samples.append({"part": part, "request": beh["req"], "before": r["before"], "after": r["after"]})
             elif part == "sequence":
